@@ -10,7 +10,7 @@ PROPS['C09'] = dict(
     rule='distinct = distinct (marker kind, loop enabled, count, hook registration scenario) with >= 10 delivered events',
     floor=80,
     assumptions=['"loopEnd only" is read with the loop start at the beginning of the song (statement: "the beginning of the song when absent")'],
-    stages=[dict(name='loops', variant='asan', harness='c09_loops.cpp', quick=4000, thorough=80000),
+    stages=[dict(name='loops', variant='asan', harness='c09_loops.cpp', quick=24000, thorough=400000),
             dict(name='memcheck', variant='plain-d', harness='c09_loops.cpp', quick=1000, thorough=20000, budget=150, wall=2400, **{'as': 'loops'},
                  wrapper=['valgrind', '-q', '--error-exitcode=79', '--exit-on-first-error=yes', '--track-origins=no', '--leak-check=no'])],
 )
